@@ -358,6 +358,9 @@ fn main() {
             let mut kinds: BTreeMap<String, usize> = BTreeMap::new();
             let mut viol = 0usize;
             let mut cases = 0usize;
+            let max_viol = args.usize("max-viol", 40);
+            let mut stopped_early = false;
+            let mut sig_count: BTreeMap<String, usize> = BTreeMap::new();
             let mut queue: Vec<(Vec<Value>, Vec<Value>)> = Vec::new();
             for c in &corp {
                 for _ in 0..repeat_corpus {
@@ -380,10 +383,14 @@ fn main() {
                 if search {
                     for (sig, what) in violations(&docs, &hist, &obs) {
                         viol += 1;
-                        // shrink: drop notifications one at a time while the same signature reproduces
+                        let fam = sig.split(':').next().unwrap_or("").to_string();
+                        let seen_sig = sig_count.entry(fam).or_insert(0usize);
+                        *seen_sig += 1;
+                        // shrink (only the first few of a kind): drop notifications one at a time while the same
+                        // signature reproduces
                         let mut cur = hist.clone();
                         let mut i = 0;
-                        let mut budget = 12;
+                        let mut budget = if *seen_sig <= 2 { 12 } else { 0 };
                         while i < cur.len() && budget > 0 && cur.len() > 1 {
                             let mut cand = cur.clone();
                             cand.remove(i);
@@ -403,16 +410,24 @@ fn main() {
                             }
                         }
                         // recompute the signature on the shrunk history
-                        let o3 = run_history(&mut cx, &docs, &cur);
-                        let v3 = violations(&docs, &cur, &o3);
-                        let (sig2, what2) = v3.into_iter().find(|(s, _)| s.split(':').next() == sig.split(':').next()).unwrap_or((sig.clone(), what.clone()));
+                        let (sig2, what2) = if cur.len() < hist.len() {
+                            let o3 = run_history(&mut cx, &docs, &cur);
+                            let v3 = violations(&docs, &cur, &o3);
+                            v3.into_iter().find(|(s, _)| s.split(':').next() == sig.split(':').next()).unwrap_or((sig.clone(), what.clone()))
+                        } else {
+                            (sig.clone(), what.clone())
+                        };
                         println!("{}", json!({"signature": sig2, "what": what2, "case": {"docs": docs, "hist": cur, "original_hist": hist}}));
+                    }
+                    if viol >= max_viol {
+                        stopped_early = true;
+                        break;
                     }
                 } else {
                     println!("{}", json!({"docs": docs, "hist": hist, "obs": obs}));
                 }
             }
-            println!("{}", json!({"summary": {"cases": cases, "distinct_nontrivial": distinct_nontrivial, "ops": ops, "doc_kinds": kinds, "violations": viol}}));
+            println!("{}", json!({"summary": {"cases": cases, "distinct_nontrivial": distinct_nontrivial, "ops": ops, "doc_kinds": kinds, "violations": viol, "stopped_early_after_max_violations": stopped_early}}));
             std::io::stdout().flush().unwrap();
             std::process::exit(0);
         }
